@@ -8,6 +8,7 @@ mod oplog;
 mod pending;
 mod s3;
 mod seq;
+mod stress;
 
 fn main() {
     let args: Vec<String> = std::env::args().collect();
@@ -26,6 +27,7 @@ fn main() {
         "probe-load" => seq::probe_load(rest),
         "http" => http::main(rest),
         "conc" => conc::main(rest),
+        "stress" => stress::main(rest),
         x => {
             eprintln!("unknown subcommand {}", x);
             std::process::exit(2);
